@@ -36,7 +36,7 @@
 EXTENDS Naturals, Sequences, FiniteSets, TLC, Json
 
 CONSTANTS Variant,      \* "fixed" | "pinned"
-          Tier,         \* "s" | "q" | "t": size of the path / leaf alphabet
+          Tier,         \* "s" | "q" | "t" | "p" | "p3": the path / leaf alphabet
           MaxFiles,     \* 1..3
           MaxPerFile,   \* entries per file, 1..2
           MaxTotal,     \* total weight of the files of a case (see FilesOfWeight)
@@ -62,7 +62,10 @@ Items(q) == {q[i] : i \in DOMAIN q}
 
 \* ---- byte order of keys: BTreeMap<String, _> order of the dotted strings.  All segment characters are
 \* greater than '.', so the string order is the lexicographic order of the segment tuples.
-Rank(s) == CASE s = "" -> 0 [] s = "a" -> 1 [] s = "b" -> 2 [] s = "c" -> 3
+\* Segments "ab" and "bb" extend "a" resp. "b" as STRINGS without a dot boundary ("a.b" is a string prefix of its
+\* sibling "a.bb" but not a dotted prefix); the claim above still holds: a segment that is a proper string prefix
+\* of another ranks below it, and what follows it in the dotted string is '.', which is less than every character.
+Rank(s) == CASE s = "" -> 0 [] s = "a" -> 1 [] s = "ab" -> 2 [] s = "b" -> 3 [] s = "bb" -> 4 [] s = "c" -> 5
 RECURSIVE LexLess(_, _)
 LexLess(x, y) == IF x = <<>> THEN y # <<>>
                  ELSE IF y = <<>> THEN FALSE
@@ -139,8 +142,12 @@ Insert(cur, k, v) == IF Variant = "pinned" THEN InsertPinned(cur, k, 1, v) ELSE 
 \* the case space
 PathsOf(tier) == CASE tier = "s" -> {<<"a">>, <<"a", "b">>}
                    [] tier = "q" -> {<<"a">>, <<"a", "b">>, <<"a", "c">>, <<"a", "b", "c">>}
+                   \* prefix-but-not-dotted-prefix siblings: a / ab at the top, a.b / a.bb below
+                   [] tier = "p" -> {<<"a">>, <<"ab">>, <<"a", "b">>, <<"a", "bb">>}
+                   [] tier = "p3" -> {<<"a", "b">>, <<"a", "bb">>}
                    [] OTHER -> {<<"a">>, <<"b">>, <<"a", "b">>, <<"a", "c">>, <<"a", "b", "c">>}
-LeavesOf(tier) == IF tier \in {"s", "q"} THEN {S(1), S(2), A(<<1>>), A(<<1, 2>>)}
+LeavesOf(tier) == IF tier \in {"s", "q", "p"} THEN {S(1), S(2), A(<<1>>), A(<<1, 2>>)}
+                  ELSE IF tier = "p3" THEN {S(1), S(2), A(<<2>>)}
                   ELSE {S(1), S(2), A(<<1>>), A(<<1, 2>>), A(<<2>>), A(<<>>)}
 
 \* all ways to cut a path into consecutive keys
@@ -223,10 +230,19 @@ FlatSpelled(fs) == [i \in DOMAIN fs |-> [kind |-> fs[i].kind,
                                          es |-> {[ks |-> <<PathOf(e)>>, v |-> e.v] : e \in fs[i].es}]]
 Respellable(fs) == \A i \in DOMAIN fs : ~FileAmbiguous(fs[i])
 
+\* the dotted string of p is a proper prefix of the dotted string of q although p is not an ancestor of q:
+\* p's last segment is a proper string prefix of the segment of q at that position ("a.b" / "a.bb", "a" / "ab")
+SegPrefix(x, y) == (x = "a" /\ y = "ab") \/ (x = "b" /\ y = "bb")
+StringPrefixSibling(p, q) == /\ p # <<>> /\ Len(p) <= Len(q)
+                             /\ SubSeq(q, 1, Len(p) - 1) = SubSeq(p, 1, Len(p) - 1)
+                             /\ SegPrefix(p[Len(p)], q[Len(p)])
+
 ----------------------------------------------------------------------------------------------------
 \* the loader as a state machine.  `ref` is a ghost variable: the reference result of the case (Null where
 \* the statement demands nothing exact), computed once when the files are loaded.
-Init == /\ files \in Cases
+\* the 3-file sibling tier keeps the cases in which both siblings are set somewhere (the rest repeats tier "s")
+CaseOK(fs) == Tier # "p3" \/ {<<"a", "b">>, <<"a", "bb">>} \subseteq SetPaths(fs)
+Init == /\ files \in {fs \in Cases : CaseOK(fs)}
         /\ pc = "load" /\ flat = <<>> /\ todo = {} /\ out = EmptyObj /\ ref = Null
 
 Load == /\ pc = "load"
@@ -274,11 +290,14 @@ Classes(fs) == [ambiguous |-> \E i \in DOMAIN fs : FileAmbiguous(fs[i]),
                 mixed |-> \E i, j \in DOMAIN fs : i # j /\ \E e1 \in fs[i].es, e2 \in fs[j].es :
                              PathOf(e1) = PathOf(e2) /\ e1.ks # e2.ks,
                 arrays |-> \E p \in SetPaths(fs) :
-                             Cardinality({i \in DOMAIN fs : \E e \in fs[i].es : PathOf(e) = p /\ e.v.t = "a"}) > 1]
+                             Cardinality({i \in DOMAIN fs : \E e \in fs[i].es : PathOf(e) = p /\ e.v.t = "a"}) > 1,
+                sibling |-> \E i, j \in DOMAIN fs : i < j /\ \E e1 \in fs[i].es, e2 \in fs[j].es :
+                             StringPrefixSibling(PathOf(e2), PathOf(e1))]
 Emit == (EmitCases /\ pc = "done") =>
           PrintT(<<"CASE", ToJson([files |-> [i \in DOMAIN files |-> EmitFile(files[i])],
                                    model |-> EmitV(out),
                                    exact |-> ref.t # "n",
                                    ref |-> EmitV(ref),
-                                   cls |-> Classes(files)])>>)
+                                   cls |-> Classes(files),
+                                   tier |-> Tier])>>)
 =============================================================================
